@@ -18,6 +18,35 @@ func rxCls(r []rune) string {
 	return "(.cls [" + strings.Join(p, ",") + "])"
 }
 
+// rxNullable: can the expression match the empty string (anchors count as nullable).
+func rxNullable(re *syntax.Regexp) bool {
+	switch re.Op {
+	case syntax.OpLiteral:
+		return len(re.Rune) == 0
+	case syntax.OpCharClass, syntax.OpAnyCharNotNL, syntax.OpAnyChar, syntax.OpNoMatch:
+		return false
+	case syntax.OpCapture, syntax.OpPlus:
+		return rxNullable(re.Sub[0])
+	case syntax.OpConcat:
+		for _, s := range re.Sub {
+			if !rxNullable(s) {
+				return false
+			}
+		}
+		return true
+	case syntax.OpAlternate:
+		for _, s := range re.Sub {
+			if rxNullable(s) {
+				return true
+			}
+		}
+		return false
+	case syntax.OpRepeat:
+		return re.Min == 0 || rxNullable(re.Sub[0])
+	}
+	return true
+}
+
 func rxEmit(re *syntax.Regexp) string {
 	switch re.Op {
 	case syntax.OpEmptyMatch:
@@ -70,6 +99,9 @@ func rxEmit(re *syntax.Regexp) string {
 	case syntax.OpPlus:
 		if re.Flags&syntax.NonGreedy != 0 {
 			bad("non-greedy plus unsupported")
+		}
+		if rxNullable(re.Sub[0]) {
+			bad("plus over a body that can match the empty string is unsupported (Go's priority for empty rounds differs from x x*)")
 		}
 		s := rxEmit(re.Sub[0])
 		return "(.cat " + s + " (.star " + s + "))"
